@@ -28,7 +28,7 @@ def run(res, only=None):
                 "all 24 Hurwitz unit quaternions x lattice vectors: q*v on Vec3 and Vec3A (also with a poisoned hidden lane), (-q)*v, "
                 "q^-1(qv) = v, (pq)v = p(qv), Mat3/Mat4::from_quat, normalize, length -- exact. non-trivial = more than two non-zero components.  "
                 "Code -> spec: q*p (both spellings) and q*v (Vec3, Vec3A) for random unit Quat/DQuat and random vectors, recorded per build; TLC expands "
-                "the Hamilton product / the sandwich q v q* into monomials and accepts iff |got - exact| <= K u sum|monomials| (K = 7 / 14).")
+                "the Hamilton product / the sandwich q v q* into monomials and accepts iff |got - exact| <= K u sum|monomials| (K = 10 / 20).")
     res.assumptions = ["the rotation bound is relative to the sum of the magnitudes of the monomials of q v q* (a few eps*|q|^2*|v|)"]
 
 
